@@ -99,6 +99,12 @@ type lox struct {
 
 	_qla    int
 	_qlasym any
+
+	// _shifts counts the input tokens shifted so far; _recoverShifts is its
+	// value when error recovery last succeeded (-1: never). They are equal
+	// when a new error is met before any token could be shifted again.
+	_shifts        int
+	_recoverShifts int
 }
 
 func (p *{{parser}}) parse(lex _Lexer) bool {
@@ -106,6 +112,7 @@ func (p *{{parser}}) parse(lex _Lexer) bool {
 
 	p._lex = lex
 	p._qla = -1
+	p._recoverShifts = -1
 	p._stack.Push(_item{})
 
 	p._readToken()
@@ -138,6 +145,9 @@ func (p *{{parser}}) parse(lex _Lexer) bool {
 				},
 				{{- end }}
 			})
+			if p._la != ERROR {
+				p._shifts++
+			}
 			p._readToken()
 		} else { // reduce
 			prod := -action
@@ -222,6 +232,20 @@ func (p *{{parser}}) _recover() bool {
 		p._readToken()
 	}
 
+	// A new error before any token could be shifted since the last recovery:
+	// the lookahead that was accepted then cannot be consumed after all (this
+	// happens with merged LALR lookaheads). Drop it, or recovery would find the
+	// same place again for ever.
+	if p._shifts == p._recoverShifts {
+		if p._la == EOF {
+			return false
+		}
+		p._readToken()
+		for p._la == ERROR {
+			p._readToken()
+		}
+	}
+
 	for {
 		save := p._stack
 
@@ -264,6 +288,7 @@ func (p *{{parser}}) _recover() bool {
 				p._qlasym = p._lasym
 				p._la = ERROR
 				p._lasym = errSym
+				p._recoverShifts = p._shifts
 				return true
 			}
 
